@@ -62,6 +62,7 @@ def gen_case(cid, kinds, cfg, generic):
     ign = cfg.get("ignore", set())
     fign = cfg.get("field_ignore", {})
     vrefs = cfg.get("variant_refs", set())
+    vmuts = cfg.get("variant_refmut", set())    # `#[unwrap(ref, ref_mut)]` on one variant (a subset of vrefs)
     # Unwrap/TryUnwrap do not support struct-like variants - unless every one of them is ignored (their values still are inputs)
     do_unwrap = all(KINDS[k][0] is not True or vi in ign for vi, k in enumerate(kinds))
     # coherence forbids `impl<T> TryFrom<E<T>> for T` (and `for &T`): generic enums derive TryInto unless a variant converts to the bare parameter
@@ -83,9 +84,9 @@ def gen_case(cid, kinds, cfg, generic):
         if vi in ign:
             attrs += ["#[is_variant(ignore)]"] + (["#[try_into(ignore)]"] if do_tryinto else []) + (["#[unwrap(ignore)]", "#[try_unwrap(ignore)]"] if do_unwrap else [])
         if vi in vrefs and do_unwrap:
-            attrs += ["#[unwrap(ref)]", "#[try_unwrap(ref)]"]
+            attrs += ["#[unwrap(ref, ref_mut)]", "#[try_unwrap(ref, ref_mut)]"] if vi in vmuts else ["#[unwrap(ref)]", "#[try_unwrap(ref)]"]
         if vi in vrefs and do_tryinto:
-            attrs += ["#[try_into(owned, ref)]"]   # accepted at variant level like the selections of Unwrap: it must then have that effect
+            attrs += ["#[try_into(owned, ref, ref_mut)]" if vi in vmuts else "#[try_into(owned, ref)]"]   # accepted at variant level like the selections of Unwrap: it must then have that effect
         if vi in cfg.get("variant_owned", set()) and do_tryinto:
             attrs += ["#[try_into(owned)]"]
         if vi in cfg.get("enable_attr", set()):
@@ -137,8 +138,6 @@ def gen_case(cid, kinds, cfg, generic):
     for j in range(n):
         named_j, tys_j = KINDS[kinds[j]]
         sn = SNAKE[j]
-        if vrefs and j not in vrefs:
-            continue
         ctys = [cty(t) for t in tys_j]
         fields_j = ["%s(%d)" % (t, 100 + 10 * j + fi) for fi, t in enumerate(ctys)]
         if j in ign:
@@ -153,22 +152,8 @@ def gen_case(cid, kinds, cfg, generic):
             if not do_unwrap:
                 continue
             want_ref = sel_ref or (j in vrefs)
-            want_mut = sel_mut
-            if vrefs:
-                # docs only determine `*_ref` of the variant carrying `#[unwrap(ref)]`
-                if j not in vrefs:
-                    continue
-                if i == j and tys_j:
-                    k = len(tys_j)
-                    binds = ["p%d" % f for f in range(k)]
-                    L.append('{ let %s = v%d.unwrap_%s_ref(); r.eq("unwrap_%s_ref returns the fields themselves", vec![%s], fa%d.clone()); }' % (
-                        tup(binds), i, sn, sn, ", ".join("adr(%s)" % b for b in binds), i))
-                    L.append('{ let %s = v%d.try_unwrap_%s_ref().ok().unwrap(); r.eq("try_unwrap_%s_ref returns the fields themselves", vec![%s], fa%d.clone()); }' % (
-                        tup(binds), i, sn, sn, ", ".join("adr(%s)" % b for b in binds), i))
-                elif i != j:
-                    L.append('r.check("unwrap_%s_ref on %s must panic", panics(|| { let _ = v%d.unwrap_%s_ref(); }));' % (sn, NAMES[i], i, sn))
-                    L.append('r.eq("try_unwrap_%s_ref error carries the very input", v%d.try_unwrap_%s_ref().err().map(|e| adr(e.input)), Some(adr(&v%d)));' % (sn, i, sn, i))
-                continue
+            want_mut = sel_mut or (j in vmuts)
+            # (`#[unwrap(ref)]` on one variant ADDS `unwrap_x_ref` for it - unwrap.md / try_unwrap.md - and changes nothing for the others)
             if i == j:
                 L.append('r.eq("unwrap_%s on own variant", v%d.clone().unwrap_%s(), %s);' % (sn, i, sn, tup(fields_j) if fields_j else "()"))
                 L.append('r.eq("try_unwrap_%s on own variant", v%d.clone().try_unwrap_%s().ok(), Some(%s));' % (sn, i, sn, tup(fields_j) if fields_j else "()"))
@@ -320,6 +305,7 @@ def run(chk, tier):
                         add(kinds, {"field_ignore": {vi: {fi}}, "refs": True})
                 if KINDS[k][0] is False:
                     add(kinds, {"variant_refs": {vi}})
+                    add(kinds, {"variant_refs": {vi}, "variant_refmut": {vi}})
     # enum-level selection without `owned`, one variant asking for `owned` itself (first, last, middle): the variants sharing its types
     for kinds in (["t1a", "t1a"], ["t1a", "t1a", "t1a"], ["t2", "t2", "unit"], ["t1a", "t1b", "t1a"], ["n1", "t1a", "t1a"]):
         for pos in range(len(kinds)):
